@@ -1,10 +1,10 @@
 \* EXPECTED TO BE REJECTED: without _filter_reactions an adsorption is listed by the gas phase and by the interface
 SPECIFICATION Spec
 CONSTANTS
-  MaxPhases = 3
-  SpCounts <- Sp3
-  MaxRx = 2
-  MaxIa = 1
+  MaxPhases = 2
+  SpCounts <- Sp2
+  MaxRx = 1
+  MaxIa = 0
   MaxCalls = 3
   Variant = "nofilter"
   Scope = "narrow"
